@@ -303,6 +303,12 @@ def gen_fit_spec(rng, k, big, tm=False):
     spec = dict(base)
     spec.pop('cubes', None)
     spec['stream'] = 'fit:' + base['stream']
+    # quota (MultiNest): importance sampling, which switches mode separation off; the chains directory is shared by all
+    # cases of a run, so files of earlier mode-separated runs are lying around, as in a re-used chains directory
+    spec['importance'] = bool(spec.get('sampler') == 'multinest' and (k // 3) % 4 == 3)
+    if spec['importance']:
+        spec['multimodal'] = False        # what MultiNestOptimizer does: importance sampling switches mode separation off
+        spec['search_multi_modes'] = bool((k // 12) % 2 == 0)     # the option itself is left at its default half the time
     m = spec['model']
     if m['kind'] == 'poly':
         m['limit'] = 1e300
